@@ -222,7 +222,12 @@ def _worker(args):
     out["error"] = None
   except BaseException as e:     # noqa: harness error, reported as such
     out = ctx.result()
-    out["error"] = "".join(traceback.format_exception(type(e), e, e.__traceback__))[-6000:]
+    tb = "".join(traceback.format_exception(type(e), e, e.__traceback__))
+    # keep the innermost frames and the exception line; drop Hypothesis' dump of the falsifying example
+    for marker in ("Falsifying example", "Flaky example", "Unreliable test"):
+      cut = tb.find(marker)
+      if cut > 0: tb = tb[:cut]
+    out["error"] = (tb[:1500] + "\n...\n" + tb[-4500:]) if len(tb) > 6000 else tb
   return out
 
 
